@@ -147,6 +147,9 @@ class AstToSqlVisitor(visitor.NodeVisitor):
             if isinstance(node.op, (ast.Add, ast.Sub)):
                 return 1
             return 2
+        if isinstance(node, ast.Call) and node.func.name.lower() == "indexof":
+            # Rendered as a subtraction: <position> - 1
+            return 1
         return 3
 
     def visit_Eq(self, node: ast.Eq) -> str:
@@ -238,7 +241,10 @@ class AstToSqlVisitor(visitor.NodeVisitor):
         # In case of a subexpression, wrap it in parentheses
         if isinstance(node.operand, ast.BoolOp):
             operand = f"({operand})"
-        elif isinstance(node.op, ast.USub) and isinstance(node.operand, ast.BinOp):
+        elif (
+            isinstance(node.op, ast.USub)
+            and self._arithmetic_precedence(node.operand) < 3
+        ):
             operand = f"({operand})"
 
         return f"{op} {operand}"
